@@ -69,6 +69,9 @@ func (m *Model) Facts(f *ssa.Function, spec map[string]bool) (map[*ssa.BasicBloc
 			ifi, _ = b.Instrs[len(b.Instrs)-1].(*ssa.If)
 		}
 		for i, s := range b.Succs {
+			if deadEdge(b, i) {
+				continue
+			}
 			out := map[string]Lit{}
 			for k, l := range in[b] {
 				out[k] = l
@@ -318,7 +321,7 @@ func mustFollowExit(start ssa.Instruction, pred func(ssa.Instruction) bool, skip
 			return true
 		}
 		for i, s := range b.Succs {
-			if skip != nil && skip(b, i) {
+			if (skip != nil && skip(b, i)) || deadEdge(b, i) {
 				continue
 			}
 			if !ok[s] {
@@ -353,7 +356,7 @@ func mustFollowExit(start ssa.Instruction, pred func(ssa.Instruction) bool, skip
 			return r
 		}
 		for i, s := range b.Succs {
-			if (skip != nil && skip(b, i)) || seen[s] {
+			if (skip != nil && skip(b, i)) || seen[s] || deadEdge(b, i) {
 				continue
 			}
 			seen[s] = true
@@ -380,11 +383,14 @@ func reachableFromEdge(b *ssa.BasicBlock, succ int, pred func(ssa.Instruction) b
 				return true
 			}
 		}
-		for _, s := range x.Succs {
+		for _, s := range liveSuccs(x) {
 			if walk(s) {
 				return true
 			}
 		}
+		return false
+	}
+	if deadEdge(b, succ) {
 		return false
 	}
 	return walk(b.Succs[succ])
@@ -412,11 +418,11 @@ func reachableAfter(start ssa.Instruction, pred func(ssa.Instruction) bool) ssa.
 				return
 			}
 		}
-		for _, s := range x.Succs {
+		for _, s := range liveSuccs(x) {
 			walk(s)
 		}
 	}
-	for _, s := range b.Succs {
+	for _, s := range liveSuccs(b) {
 		walk(s)
 	}
 	return found
@@ -473,6 +479,72 @@ func returnValue(ret *ssa.Return, i int) ssa.Value {
 	return v
 }
 
+// deadBlocks holds the blocks that cannot execute because a branch condition is a constant
+// (`if false && ...`, `const debug = false; if debug {...}`). Rules never look into them.
+var deadBlocks = map[*ssa.BasicBlock]bool{}
+var deadDone = map[*ssa.Function]bool{}
+
+func markDead(f *ssa.Function) {
+	if deadDone[f] || len(f.Blocks) == 0 {
+		return
+	}
+	deadDone[f] = true
+	live := map[*ssa.BasicBlock]bool{}
+	var walk func(b *ssa.BasicBlock)
+	walk = func(b *ssa.BasicBlock) {
+		if live[b] {
+			return
+		}
+		live[b] = true
+		if ifi, ok := b.Instrs[len(b.Instrs)-1].(*ssa.If); ok && len(b.Succs) == 2 {
+			if k, isC := constBool(ifi.Cond); isC {
+				if k {
+					walk(b.Succs[0])
+				} else {
+					walk(b.Succs[1])
+				}
+				return
+			}
+		}
+		for _, s := range b.Succs {
+			walk(s)
+		}
+	}
+	walk(f.Blocks[0])
+	if f.Recover != nil {
+		walk(f.Recover)
+	}
+	for _, b := range f.Blocks {
+		if !live[b] {
+			deadBlocks[b] = true
+		}
+	}
+}
+
+// liveSuccs returns the successors of b that can execute.
+func liveSuccs(b *ssa.BasicBlock) []*ssa.BasicBlock {
+	markDead(b.Parent())
+	if ifi, ok := b.Instrs[len(b.Instrs)-1].(*ssa.If); ok && len(b.Succs) == 2 {
+		if k, isC := constBool(ifi.Cond); isC {
+			if k {
+				return b.Succs[:1]
+			}
+			return b.Succs[1:]
+		}
+	}
+	return b.Succs
+}
+
+// deadEdge: the edge b -> Succs[i] can never be taken.
+func deadEdge(b *ssa.BasicBlock, i int) bool {
+	if ifi, ok := b.Instrs[len(b.Instrs)-1].(*ssa.If); ok && len(b.Succs) == 2 {
+		if k, isC := constBool(ifi.Cond); isC {
+			return (i == 0) != k
+		}
+	}
+	return false
+}
+
 // calls iterates over the call instructions (call, go, defer) of a function.
 func eachCall(f *ssa.Function, fn func(ci ssa.CallInstruction)) {
 	for _, b := range f.Blocks {
@@ -485,7 +557,11 @@ func eachCall(f *ssa.Function, fn func(ci ssa.CallInstruction)) {
 }
 
 func eachInstr(f *ssa.Function, fn func(in ssa.Instruction)) {
+	markDead(f)
 	for _, b := range f.Blocks {
+		if deadBlocks[b] {
+			continue
+		}
 		for _, in := range b.Instrs {
 			fn(in)
 		}
@@ -526,9 +602,12 @@ func reachAvoid(b *ssa.BasicBlock, succ int, pred func(ssa.Instruction) bool, st
 				return
 			}
 		}
-		for _, s := range x.Succs {
+		for _, s := range liveSuccs(x) {
 			walk(s)
 		}
+	}
+	if deadEdge(b, succ) {
+		return nil
 	}
 	walk(b.Succs[succ])
 	return found
@@ -620,4 +699,16 @@ func (m *Model) edgeDemotesAndExits(b *ssa.BasicBlock, succ int) bool {
 	}
 	walk(b.Succs[succ], false)
 	return ok
+}
+
+// liveBlocks returns the blocks of f that can execute (see deadBlocks).
+func liveBlocks(f *ssa.Function) []*ssa.BasicBlock {
+	markDead(f)
+	var out []*ssa.BasicBlock
+	for _, b := range f.Blocks {
+		if !deadBlocks[b] {
+			out = append(out, b)
+		}
+	}
+	return out
 }
